@@ -18,8 +18,9 @@ STRS = ["abc", "", "mutpy", "python", "x y", "k"]
 
 
 class _Gen:
-    def __init__(self, rng: random.Random):
+    def __init__(self, rng: random.Random, compact: bool = False):
         self.rng = rng
+        self.compact = compact
         self.names = ["a", "b", "c", "n", "xs", "s"]
 
     # ---------------------------------------------------------------- expressions
@@ -205,6 +206,8 @@ class _Gen:
         if r.random() < 0.3:
             out.append(f'{p}    """Doc of {name}."""')
         body = self.block(0, ind + 1, False, r.randint(1, 3) if not method else r.randint(1, 2))
+        if self.compact and len(body) > 14:
+            body = self.block(1, ind + 1, False, 2)
         call = f"{p}    super().{name}()"
         if supercall == "first":
             body = [call] + body
@@ -226,7 +229,7 @@ class _Gen:
             out += self.func(f"f{i}", decorators=decs) + [""]
         # a small hierarchy: hiding variables, overriding methods, super calls
         out += ["class Base:", f"    kind = {self.const()}", f"    size, unit = {r.choice([1, 2, 5])}, {r.choice(STRS)!r}", "    limit = 2 + 3", ""]
-        meths = ["run", "stop", "reset", "value"]
+        meths = r.sample(["run", "stop", "reset", "value"], 2 if self.compact else 3)
         for m in meths:
             out += self.func(m, ind=1, method=True) + [""]
         out += ["class Derived(Base):", '    """Doc."""']
@@ -238,21 +241,21 @@ class _Gen:
             out.append(f"    size, unit = {r.choice([3, 4])}, {r.choice(STRS)!r}")
         out.append(f"    other = {r.choice(['1 + 1', '2 * 2', repr('abc'), 'not True'])}")
         out.append("")
-        for m in r.sample(meths, r.randint(2, 4)):
+        for m in r.sample(meths, r.randint(2, len(meths))):
             sc = r.choice([None, "first", "last", "middle", "first"])
             decs = r.choice([[], [], ["deco"], ["deco_arg(1)"]])
             out += self.func(m, ind=1, method=True, decorators=decs, supercall=sc) + [""]
         out += self.func("fresh", ind=1, method=True) + [""]
-        if r.random() < 0.5:
+        if r.random() < (0.15 if self.compact else 0.3):
             out += ["class Outer:", "    class Inner(Base):", f"        kind = {self.const()}", ""]
             out += self.func("run", ind=2, method=True, supercall=r.choice([None, "first"])) + [""]
         return "\n".join(out) + "\n"
 
 
-def gen_module(rng: random.Random, nfuncs=None) -> str:
+def gen_module(rng: random.Random, nfuncs=None, compact=False) -> str:
     """Return the source of one generated module (always compiles; verified by the caller)."""
     for _ in range(20):
-        src = _Gen(rng).module(nfuncs)
+        src = _Gen(rng, compact).module(nfuncs)
         try:
             compile(src, "<minisrc>", "exec")
         except SyntaxError:
